@@ -598,6 +598,16 @@ func (p *Parser) parseInfixExpression(left ast.Expression) ast.Expression {
 	switch p.curToken.Type {
 	case token.PLUSEQUALS, token.MINUSEQUALS, token.ASTERISKEQUALS, token.SLASHEQUALS:
 		precedence = LOWEST
+
+		// and, again as for "=", what is updated must be a variable.
+		// (The compiler checks that too, but not every expression of
+		// a program is compiled: the value of a switch without cases,
+		// and the callee of a call, are not.)
+		if _, ok := left.(*ast.Identifier); !ok {
+			msg := fmt.Sprintf("left-most operand for %s must be an identifier, around %s", p.curToken.Literal, p.curToken.Position())
+			p.errors = append(p.errors, msg)
+			return nil
+		}
 	}
 	p.nextToken()
 	expression.Right = p.parseExpression(precedence)
